@@ -5,7 +5,9 @@ syntax tree whose reference rendering (`Model/Render`) is, token for token, what
 character-level printer `Printer.print*` writes (`Proofs/PrintText`, `Props/C15Text`).
 
 * literals are quoted through the printer's own digit / date / hex writers: the quoted
-  integer literal of `5` is the digit string `printInt 5`, of a date its RFC 3339 text, …;
+  integer literal of `5` is the digit string `printInt 5`, of `-5` the signed literal
+  `.negInt` with the digits of `5` (the printer writes `-5`, no blank), of a date its
+  RFC 3339 text, …;
 * names (predicates, variables) and strings are decoded with `charsOfBytes`, as the printer does;
 * a set is quoted element by element, the elements SORTED BY THEIR PRINTED FORM (`sortA`), which
   is what the printer does (`Printer.sortC` on the printed elements);
@@ -28,7 +30,7 @@ def quoteName (n : Bytes) : String := String.ofList (charsOfBytes n)
 
 /-- A literal. -/
 def quoteAtom : Atom → PTerm
-  | .int i => .int (printInt i)
+  | .int i => if i < 0 then .negInt (natDigits i.natAbs) else .int (printInt i)
   | .str s => .str (charsOfBytes s)
   | .date d => .date (printDate d)
   | .bytes b => .bytes (printHex b)
